@@ -181,7 +181,7 @@ class FourWay(object):
         for c, i, g in self.suspect:
             try:
                 m = lib.model_run("gloop", [[SUSPECT_FUEL, c[1], c[2]]], timeout=SUSPECT_TIMEOUT)[0]
-            except subprocess.TimeoutExpired:
+            except (subprocess.TimeoutExpired, lib.ModelError):
                 self.dropped["both_diverge"] += 1
                 self.dropped["model_no_answer_in_time"] = self.dropped.get("model_no_answer_in_time", 0) + 1
                 continue
@@ -434,7 +434,7 @@ def run_apps(chk, tier):
     for c, a, b in suspects:
         try:
             m = lib.model_run("gscreen", [[1200] + c[1:6]], timeout=SUSPECT_TIMEOUT)[0]
-        except subprocess.TimeoutExpired:
+        except (subprocess.TimeoutExpired, lib.ModelError):
             st["glib_unfinished"] += 1; chk.hist("app:discarded:glib-model-no-answer-in-time"); continue
         if 5 in m[0]:
             st["glib_unfinished"] += 1; chk.hist("app:discarded:glib-diverges-in-model-too")
